@@ -53,8 +53,8 @@ def _run_one(m):
                 "w = World()\n"
                 "out = []\n"
                 "for t in %r:\n"
-                "    con = w.reg.contracts[t]\n"
-                "    for v in (con.variants or [None]):\n"
+                "    for con in [c for c in w.reg.facets[t] if not c.assumed]:\n"
+                "      for v in (con.all_variants() if hasattr(con, 'all_variants') else (con.variants or [None])):\n"
                 "        r = verify_function(w, con, v)\n"
                 "        out.append({'target': t, 'error': r.error, 'bad': [[o.name, o.verdict] for o in r.obligations if o.verdict != 'discharged']})\n"
                 "print('RESULT' + json.dumps(out))\n") % (VERIF, m['targets'])
